@@ -255,12 +255,14 @@ type harness struct {
 	stepNo  int
 	pending []*running
 
-	failure string
-	labels  map[string]bool
-	trace   []string
+	failure  string
+	labels   map[string]bool
+	trace    []string
+	excluded bool // an action was dropped by the known-finding exclusion
 }
 
 type result struct {
+	excluded   bool
 	failure    string
 	labels     []string
 	nontrivial bool
@@ -336,6 +338,7 @@ func (h *harness) analyse(acts []action) (string, map[int]bool) {
 	closing, resuming, newSub, closingEm := map[int]bool{}, map[int]bool{}, map[int]bool{}, map[int]bool{}
 	grants := map[int]int{}
 	var load, eusers, xusers [nTypes]int
+	var blk [nTypes]int // calls that hold the bus lock while waiting for the node lock
 	var xSubOf [nTypes][]int
 	xW := 0
 	var xWSub []int
@@ -362,6 +365,7 @@ func (h *harness) analyse(acts []action) (string, map[int]bool) {
 				for t := 0; t < nTypes; t++ {
 					if s.types[t] {
 						xusers[t]++
+						blk[t]++
 						xSubOf[t] = append(xSubOf[t], a.S)
 					}
 				}
@@ -386,6 +390,7 @@ func (h *harness) analyse(acts []action) (string, map[int]bool) {
 			closingEm[a.E] = true
 		case "newEm":
 			xusers[h.ems[a.E].typ]++
+			blk[h.ems[a.E].typ]++
 		}
 	}
 	// Emitter.Close takes the bus and node locks only when it may have been the last emitter.
@@ -403,6 +408,16 @@ func (h *harness) analyse(acts []action) (string, map[int]bool) {
 		}
 		if closingN > 0 && stay == 0 {
 			xusers[t] += closingN
+			blk[t] += closingN
+		}
+		if stay == 0 {
+			// Subscription.Close calls tryDropNode (bus lock, then node lock) when it leaves a
+			// node without sinks and emitters
+			for _, a := range acts {
+				if a.K == "closeSub" && h.subs[a.S].types[t] {
+					blk[t]++
+				}
+			}
 		}
 	}
 	total := 0
@@ -495,6 +510,37 @@ func (h *harness) analyse(acts []action) (string, map[int]bool) {
 			}
 		}
 	}
+	// Known finding (see witness_test.go): a multi-type Subscribe whose channel can fill up
+	// before Subscribe has returned, concurrent with a call that holds the bus lock while it
+	// waits for the node lock of an already registered type, deadlocks for good. For slow
+	// subscribers the rules above already keep that shape out; for eager ones it is excluded
+	// only while the finding is listed as known.
+	if knownDeadlockListed() {
+		for _, a := range acts {
+			if a.K != "sub" || h.subs[a.S].spec.Kind != "multi" {
+				continue
+			}
+			s := h.subs[a.S]
+			senders := 0
+			for i, t := range s.spec.Types {
+				if i == len(s.spec.Types)-1 {
+					break // after the last registration Subscribe needs no lock any more
+				}
+				if h.sc.Stateful[t] && (h.anyEmit[t] || load[t] > 0) {
+					senders++
+				}
+				senders += load[t]
+				if senders <= s.spec.capacity() {
+					continue
+				}
+				for _, u := range s.spec.Types[:i+1] {
+					if blk[u]-1 > 0 {
+						return knownDeadlock, stall
+					}
+				}
+			}
+		}
+	}
 	return "", stall
 }
 
@@ -522,6 +568,11 @@ func (h *harness) plan(cands []action) []action {
 		}
 		try := append(acc[:len(acc):len(acc)], a)
 		if why := h.unsafe(try); why != "" {
+			if why == knownDeadlock {
+				h.excluded = true
+				h.label("dropped:known-finding:" + a.K)
+				continue
+			}
 			h.label("dropped:lock-hazard:" + a.K)
 			if debugPlan {
 				fmt.Fprintf(os.Stderr, "step %d: %v dropped: %s\n", h.stepNo, a, why)
